@@ -828,6 +828,9 @@ func c01Presence(c *Ctx, pp *pop.Population, tr *an.Tracer, rule string) {
 			if cd.X != nil {
 				o = tr.OriginString(cd.X)
 			}
+			if strings.Contains(o, " | ") {
+				return 0, false // a join of several values: the engine evaluates it from its parts
+			}
 			switch {
 			case cd.Kind == "bool" && (strings.Contains(o, "tl.fieldTag.encodedInBitflag") || strings.Contains(o, "tl.fieldTag.ignore")):
 				return cd.EdgeWhen(false).Succ, true
